@@ -178,6 +178,19 @@ pub fn run(tier: Tier) -> i32 {
         probe(&mut cases, &mut meta, "right-leaning-sum", n, format!(".dw {}1{}\n", "1+(".repeat(n), ")".repeat(n)));
         probe(&mut cases, &mut meta, "mixed-precedence-chain", n, format!(".dw 1{}\n", "*2+3|4".repeat(n / 3 + 1)));
         probe(&mut cases, &mut meta, "nested-function-calls", n, format!(".dw {}1{}\n", "low(".repeat(n), ")".repeat(n)));
+        // deep nesting behind things a pre-scan of the line could trip over
+        probe(&mut cases, &mut meta, "nesting-after-semicolon-char-literal", n, format!(".db ';', {}1{}\n", "(".repeat(n), ")".repeat(n)));
+        probe(&mut cases, &mut meta, "nesting-after-quote-char-literal", n, format!(".db '\"', {}1{}\n", "(".repeat(n), ")".repeat(n)));
+        probe(&mut cases, &mut meta, "nesting-after-string-with-semicolon", n, format!(".db \"a;b\", {}1{}\n", "(".repeat(n), ")".repeat(n)));
+        probe(&mut cases, &mut meta, "nesting-after-slash-slash-in-string", n, format!(".db \"a//b\", {}1{}\n", "-".repeat(n), ""));
+        probe(&mut cases, &mut meta, "nesting-in-skipped-branch", n, format!(".if 0\n.db {}1{}\n.endif\nnop\n", "(".repeat(n), ")".repeat(n)));
+        probe(&mut cases, &mut meta, "nesting-in-skipped-branch-after-char-literal", n, format!(".if 0\n.db ';', {}1{}\n.endif\nnop\n", "(".repeat(n), ")".repeat(n)));
+        probe(&mut cases, &mut meta, "nesting-in-macro-body", n, format!(".macro deepm\n.db {}1{}\n.endm\nnop\n", "(".repeat(n), ")".repeat(n)));
+        probe(&mut cases, &mut meta, "nesting-in-label-line", n, format!("deep_l: .dw {}1\n", "~".repeat(n)));
+        probe(&mut cases, &mut meta, "nesting-in-instruction-operand", n, format!("ldi r16, {}1{}\n", "(".repeat(n), ")".repeat(n)));
+        probe(&mut cases, &mut meta, "nesting-in-macro-argument", n, format!(".macro am\n.dw @0\n.endm\nam {}1{}\n", "(".repeat(n), ")".repeat(n)));
+        probe(&mut cases, &mut meta, "nesting-mixed-unary-and-parentheses", n, format!(".dw {}1{}\n", "-(".repeat(n), ")".repeat(n)));
+        probe(&mut cases, &mut meta, "nesting-with-blanks-between-unary", n, format!(".dw {}1\n", "- ".repeat(n)));
         probe(&mut cases, &mut meta, "db-operand-list", n, format!(".db 1{}\n", ",1".repeat(n)));
         probe(&mut cases, &mut meta, "instruction-operand-list", n, format!("nop r1{}\n", ",r1".repeat(n)));
         probe(&mut cases, &mut meta, "macro-call-operand-list", n, format!(".macro mm\nnop\n.endm\nmm 1{}\n", ",1".repeat(n)));
@@ -198,6 +211,25 @@ pub fn run(tier: Tier) -> i32 {
                 s.push_str(&format!(".equ e{} = e{} + 1\n", i, i + 1));
             }
             s.push_str(&format!(".equ e{} = 1\n.dw e0\n", m));
+            s
+        });
+        // every symbol defined twice in terms of the previous one: 2^n resolutions without memoisation
+        probe(&mut cases, &mut meta, "equ-doubling-chain", n, {
+            let m = [18usize, 24, 30, 40, 60][ladder.iter().position(|x| *x == n).unwrap_or(0)];
+            let mut s = String::from(".equ d0 = 1\n");
+            for i in 1..=m {
+                s.push_str(&format!(".equ d{} = d{} + d{}\n", i, i - 1, i - 1));
+            }
+            s.push_str(&format!(".dq d{} & 0xff\n", m));
+            s
+        });
+        probe(&mut cases, &mut meta, "macro-doubling-chain", n, {
+            let m = [8usize, 12, 16, 20, 24][ladder.iter().position(|x| *x == n).unwrap_or(0)];
+            let mut s = String::from(".macro dm0\nnop\n.endm\n");
+            for i in 1..=m {
+                s.push_str(&format!(".macro dm{}\ndm{}\ndm{}\n.endm\n", i, i - 1, i - 1));
+            }
+            s.push_str(&format!(".device ATtiny13\ndm{}\n", m));
             s
         });
         probe(&mut cases, &mut meta, "macro-nesting-chain", n, {
